@@ -141,7 +141,7 @@ func C06(r *explore.Run) {
 		c.Count("nodes_checked", int64(n))
 		c.OutcomeStr(text)
 		if n >= 3 {
-			c.Nontrivial(explore.Hash(e.Name + text))
+			c.Nontrivial(explore.Hash(text))
 		}
 	}
 	grammarSpace(r, "S4/grammar", 2, func(c *explore.Ctx, s *grammar.Sentence) {
@@ -205,7 +205,7 @@ func valueForAdmission(t lexref.Tok) string {
 
 // C16: whitespace, comments and keyword case never change the AST.
 func C16(r *explore.Run) {
-	r.Rule = "every sentence of G within the sentence bound x every re-spelling within the re-spelling bound (trivia alphabet {SP,LF,TAB SP,/*c*/,SP/* c */SP,--c LF,#c LF,//c LF,''} at each gap incl. before the first and after the last token; case {UPPER,lower,MiXeD} of each reserved/pseudo keyword) plus the uniform re-spellings; " +
+	r.Rule = "every sentence of G within the sentence bound x every re-spelling within the re-spelling bound (trivia alphabet {SP,LF,TAB SP,/*c*/,SP/* c */SP,--c LF,#c LF,//c LF,'',FF,VT,CRLF,NBSP,U+3000 U+0085} at each gap incl. before the first and after the last token; case {UPPER,lower,MiXeD} of each reserved/pseudo keyword) plus the uniform re-spellings; " +
 		"a re-spelling is admitted only if the reference lexer R1 gives it the same significant tokens as the default spelling; oracle: accepted and R4-equal to the default spelling's tree; non-trivial = admitted re-spelling; distinct by text"
 	r.Assume = []string{"R1 decides admission, never the implementation"}
 	type bound struct{ s, r int }
